@@ -488,7 +488,7 @@ func init() {
 	fw.Register(&fw.Prop{
 		ID:          "C08",
 		Level:       "model_checking",
-		Rule:        "(RUNTIME) 11 programs in which the required password is set, changed or removed while the server object lives (SetRequirePass / RemoveRequirePass with and without Restart, Stop+Start, CONFIG SET requirepass sent by a client) with connections opened in between: the password that counts for the gate and for AUTH is the one configured at that moment; every schedule within deviation bound 1 (thorough 2). (STATE) breadth-first search over event histories on one connection of a server with requirepass=Secret1, once as a plain connection and once as a connection that arrived over the TLS port (finished handshake, no client-certificate rule); events = AUTH with each candidate of a dictionary built around the password (empty, null bulk, every strict prefix, password+suffix, +NUL, case-swapped, embedded CRLF, leading space), two-argument forms with wrong/empty users, missing and surplus arguments, forms the statement leaves open (no expectation on the reply), and probes (GET/SET via the handler, PING/ECHO/CONFIG, SELECT, an application executor); canonical state = (IsAuthrized, UserName, Password, Database) read from the live connection object through Server.Conns() at every step plus the model's 'unlocked'; depth 4 (thorough 6) or closure. (SCHED) two connections (thorough three) each running one of 8 scripts (one- and two-argument AUTH) through the real accept loop, every schedule within deviation bound 2; a handler call or non-error reply for a client that has not itself presented the password is a violation. Runtime programs with background steps (an application goroutine calling SetRequirePass, an authorized client sending CONFIG SET requirepass, concurrently with a client that connects, probes and tries wrong passwords; deviation bound 2) and with a password removed and replaced while an unauthenticated connection is open.",
+		Rule:        "(RUNTIME) 11 programs in which the required password is set, changed or removed while the server object lives (SetRequirePass / RemoveRequirePass with and without Restart, Stop+Start, CONFIG SET requirepass sent by a client) with connections opened in between: the password that counts for the gate and for AUTH is the one configured at that moment; every schedule within deviation bound 1 (thorough 2). (STATE) breadth-first search over event histories on one connection of a server with requirepass=Secret1, once as a plain connection and once as a connection that arrived over the TLS port (finished handshake, no client-certificate rule); events = AUTH with each candidate of a dictionary built around the password (empty, null bulk, every strict prefix, password+suffix, +NUL, case-swapped, embedded CRLF, leading space), two-argument forms with wrong/empty users, missing and surplus arguments, forms the statement leaves open (no expectation on the reply), and probes (GET/SET via the handler, PING/ECHO/CONFIG, SELECT, an application executor); canonical state = (IsAuthrized, UserName, Password, Database) read from the live connection object through Server.Conns() at every step plus the model's 'unlocked'; depth 4 (thorough 6) or closure. (SCHED) two connections (thorough three) each running one of 8 scripts (one- and two-argument AUTH) through the real accept loop, every schedule within deviation bound 2; a handler call or non-error reply for a client that has not itself presented the password is a violation. Runtime programs with background steps (an application goroutine calling SetRequirePass, an authorized client sending CONFIG SET requirepass, concurrently with a client that connects, probes and tries wrong passwords; deviation bound 2) and with a password removed and replaced while an unauthenticated connection is open. AUTH forms include the password followed by a null, an integer or an array; CONFIG SET requirepass by one connection leaves the authorization of the others as it was.",
 		Assumptions: []string{"AUTH '' P, AUTH default P and three-argument AUTH carry no expectation on the reply, only the gate invariant afterwards"},
 		Run:         c08Run,
 		Replay:      c08Replay,
